@@ -284,7 +284,6 @@ Proof.
   specialize (K4 (list seg * breader)%type
                  (fun num r2' => read_segments (S (length (stream r2'))) fixed_flags rb (wrap64 num) [] r2')).
   cbn beta in K4.
-  match goal with |- context [let '(v, n, r1) := peek_uvarint r2 in _] => idtac end.
   assert (Ev1 : (let '(num, n, r1) := peek_uvarint r2 in
                  mbind (mdiscard n r1) (fun r2' => read_segments (S (length (stream r2'))) fixed_flags rb (wrap64 num) [] r2')) (0 + bufsize)
                 = (Ok (sn_segs s, r5), a5)).
@@ -326,3 +325,611 @@ Qed.
 
 Theorem roundtrip_all rb s : snapshot_wf s -> Forall (del_canonical rb) (sn_segs s) -> load rb (encode s) = Ok s.
 Proof. intros. unfold load. rewrite gen_flags_fixed. apply roundtrip_fixed; assumption. Qed.
+
+(* ================================================================ acceptance is sound *)
+
+(* whatever is accepted: the file has a trailer, the decoder (run on the bytes before the trailer)
+   produced exactly that state, and the trailer is the CRC-32 of the bytes the decoder pulled *)
+Theorem accept_sound_all rb b s : load rb b = Ok s ->
+  crc_width <= zlen b /\
+  exists r a, decode_reader gen_flags rb (br_init (payload_of b)) 0 = (Ok (s, r), a) /\
+    put_be32 (crc32 (ztake (zlen (payload_of b) - zlen (br_rest r)) (payload_of b))) = trailer_of b.
+Proof.
+  unfold load, load_with. intros H.
+  destruct (decode_reader gen_flags rb (br_init (payload_of b)) 0) as [[[s1 r]|c|c|] a] eqn:E;
+    cbn [fst] in H; try discriminate.
+  destruct (zlen b <? crc_width) eqn:El; cbn [fst] in H; [discriminate|].
+  destruct (zlist_eqb _ (trailer_of b)) eqn:Ec; cbn [fst] in H; [|discriminate].
+  inversion H; subst. split; [lia|]. exists r, a. split; [reflexivity|].
+  apply zlist_eqb_eq. exact Ec.
+Qed.
+
+Corollary accept_sound_decode rb b s : load rb b = Ok s -> decode rb (payload_of b) = Ok s.
+Proof.
+  intros H. destruct (accept_sound_all rb b s H) as (_ & r & a & E & _).
+  unfold decode, decode_with. rewrite E. reflexivity.
+Qed.
+
+(* ================================================================ short files *)
+
+Theorem short_rejected_all rb b : zlen b < 5 -> exists c, load rb b = Err c.
+Proof.
+  intros Hl. unfold load, load_with.
+  assert (Hp : payload_of b = []).
+  { unfold payload_of. apply ztake_nonpos. rewrite crc_width_4. lia. }
+  rewrite Hp.
+  assert (E : decode_reader gen_flags rb (br_init []) 0 = (Err err_version, 4096)) by (vm_compute; reflexivity).
+  rewrite E. eexists. reflexivity.
+Qed.
+
+(* five bytes are enough: the version byte alone, followed by its own CRC, loads as the empty
+   snapshot although no encoder output looks like that (the segment count is missing) *)
+Example min_accept_example rb :
+  load rb [1; 165; 5; 223; 27] = Ok {| sn_segs := [] |} /\ encode {| sn_segs := [] |} <> [1; 165; 5; 223; 27].
+Proof. split; [vm_compute; reflexivity|vm_compute; discriminate]. Qed.
+
+(* ================================================================ allocation on the pinned tree *)
+
+(* the decoder of the pinned tree asks make() for what a damaged length field says: a 24-byte
+   file requests 2^63-1 bytes and panics (D3); a 21-byte file requests a terabyte *)
+Lemma alloc_refuted_pinned rb :
+  (exists b, zlen b = 24 /\ fst (load_with pinned_flags rb b) = Panic panic_makeslice /\
+             1000000 * zlen b < snd (load_with pinned_flags rb b)) /\
+  (exists b, zlen b = 21 /\ (exists c, fst (load_with pinned_flags rb b) = Err c) /\
+             1000000 * zlen b < snd (load_with pinned_flags rb b)).
+Proof.
+  split.
+  - exists [1;1;3;105;99;101;0;0;0;1;2;255;255;255;255;255;255;255;255;127;0;0;0;0].
+    split; [reflexivity|]. split; vm_compute; reflexivity.
+  - exists [1;1;3;105;99;101;0;0;0;1;2;128;128;128;128;128;32;0;0;0;0].
+    split; [reflexivity|]. split; [eexists; vm_compute; reflexivity|vm_compute; reflexivity].
+Qed.
+
+(* ... the same two files on the current decoder: an error, a few KB *)
+Example alloc_fixed_witness rb :
+  (exists c, load rb [1;1;3;105;99;101;0;0;0;1;2;255;255;255;255;255;255;255;255;127;0;0;0;0] = Err c) /\
+  load_alloc rb [1;1;3;105;99;101;0;0;0;1;2;255;255;255;255;255;255;255;255;127;0;0;0;0] <= 8200 /\
+  load_alloc rb [1;1;3;105;99;101;0;0;0;1;2;128;128;128;128;128;32;0;0;0;0] <= 8200.
+Proof. split; [eexists; vm_compute; reflexivity|]. split; vm_compute; discriminate. Qed.
+
+(* ================================================================ fallback *)
+
+Lemma load_dir_writer_reader rb files : load_dir_writer rb files = load_dir_reader rb files.
+Proof.
+  unfold load_dir_writer. rewrite <- fold_left_rev_right. rewrite rev_involutive.
+  induction files as [|[e f] t IH]; simpl; [reflexivity|].
+  destruct (load rb f); try exact IH. reflexivity.
+Qed.
+
+Definition loads rb (f : list Z) : Prop := exists s, load rb f = Ok s.
+
+(* the pick is the first entry (= newest epoch, the list being in descending order) whose file loads *)
+Theorem load_dir_reader_spec rb files e s :
+  load_dir_reader rb files = Some (e, s) <->
+  exists pre f post, files = pre ++ (e, f) :: post /\ load rb f = Ok s /\
+                     Forall (fun ef => ~ loads rb (snd ef)) pre.
+Proof.
+  split.
+  - revert e s. induction files as [|[e0 f0] t IH]; intros e s H; simpl in H; [discriminate|].
+    destruct (load rb f0) as [s0|c|c|] eqn:E.
+    + inversion H; subst. exists [], f0, t. repeat split; [exact E|constructor].
+    + destruct (IH e s H) as (pre & f & post & -> & Hl & Hp).
+      exists ((e0, f0) :: pre), f, post. repeat split; try assumption.
+      constructor; [|exact Hp]. intros [s' Hs']. simpl in Hs'. congruence.
+    + destruct (IH e s H) as (pre & f & post & -> & Hl & Hp).
+      exists ((e0, f0) :: pre), f, post. repeat split; try assumption.
+      constructor; [|exact Hp]. intros [s' Hs']. simpl in Hs'. congruence.
+    + destruct (IH e s H) as (pre & f & post & -> & Hl & Hp).
+      exists ((e0, f0) :: pre), f, post. repeat split; try assumption.
+      constructor; [|exact Hp]. intros [s' Hs']. simpl in Hs'. congruence.
+  - intros (pre & f & post & -> & Hl & Hp).
+    induction pre as [|[e0 f0] pre IH]; simpl.
+    + rewrite Hl. reflexivity.
+    + inversion Hp as [|? ? Hn Hp']; subst. simpl in Hn.
+      destruct (load rb f0) as [s0|c|c|] eqn:E; try (apply IH; exact Hp').
+      exfalso. apply Hn. exists s0. exact E.
+Qed.
+
+Theorem load_dir_none rb files :
+  load_dir_reader rb files = None <-> Forall (fun ef => ~ loads rb (snd ef)) files.
+Proof.
+  induction files as [|[e0 f0] t IH]; simpl.
+  - split; [constructor|reflexivity].
+  - destruct (load rb f0) as [s0|c|c|] eqn:E.
+    + split; [discriminate|]. intros H. inversion H as [|? ? Hn _]; subst. exfalso. apply Hn. exists s0. exact E.
+    + rewrite IH. split; intros H; [constructor; [intros [s' Hs']; simpl in Hs'; congruence|exact H]|inversion H; assumption].
+    + rewrite IH. split; intros H; [constructor; [intros [s' Hs']; simpl in Hs'; congruence|exact H]|inversion H; assumption].
+    + rewrite IH. split; intros H; [constructor; [intros [s' Hs']; simpl in Hs'; congruence|exact H]|inversion H; assumption].
+Qed.
+
+(* a damaged newest snapshot over an intact older one yields the older one *)
+Corollary fallback_older rb e1 bad e0 good s :
+  ~ loads rb bad -> load rb good = Ok s ->
+  load_dir_reader rb [(e1, bad); (e0, good)] = Some (e0, s) /\
+  load_dir_writer rb [(e1, bad); (e0, good)] = Some (e0, s).
+Proof.
+  intros Hb Hg. rewrite load_dir_writer_reader. split;
+    (apply load_dir_reader_spec; exists [(e1, bad)], good, []; repeat split; [exact Hg|constructor; [exact Hb|constructor]]).
+Qed.
+
+
+(* ================================================================ totality and allocation *)
+(* For ARBITRARY input: every stage of the repaired decoder ends with a value or an error (never
+   a panic, never out of fuel), consumes input when it succeeds, and the allocation meter grows
+   by at most what was consumed (plus one chunk and the 4 version bytes on the failing stage). *)
+
+Lemma peek_uvarint_facts r : wf r ->
+  let '(v, n, r1) := peek_uvarint r in
+  stream r1 = stream r /\ wf r1 /\ n <= buffered r1 /\ zlen (br_rest r1) <= zlen (br_rest r).
+Proof.
+  intros Hwf. unfold peek_uvarint.
+  pose proof (peek_spec max_varint_len64 r Hwf ltac:(unfold max_varint_len64, bufsize; lia)) as Hp.
+  destruct (peek max_varint_len64 r) as [[pk eof] r1].
+  destruct Hp as (Hs1 & Hw1 & Hb & Hr & _ & _).
+  destruct (uvarint pk) as [v n] eqn:Eu.
+  apply uvarint_n in Eu. repeat split; try assumption. lia.
+Qed.
+
+Lemma mdiscard_total n r a : wf r -> n <= buffered r ->
+  match mdiscard n r a with
+  | (Ok r1, a1) => a1 = a /\ 0 <= n /\ wf r1 /\ stream r1 = zdrop n (stream r) /\ br_rest r1 = br_rest r
+  | (Err _, a1) => a1 = a
+  | _ => False
+  end.
+Proof.
+  intros Hwf Hn. destruct (Z_lt_ge_dec n 0) as [Hneg|Hpos].
+  - unfold mdiscard, mlift. rewrite discard_neg by lia. reflexivity.
+  - destruct (mdiscard_spec n r a Hwf ltac:(lia)) as (r1 & E & Hs & Hw & Hr). rewrite E.
+    repeat split; try assumption; lia.
+Qed.
+
+Lemma read_bytes_aux_total : forall fuel n acc r a, wf r -> zlen (stream r) < Z.of_nat fuel ->
+  match read_bytes_aux fuel n acc r a with
+  | (Ok (bs, r1), a1) => wf r1 /\ 0 <= a1 - a /\ zlen (stream r1) = zlen (stream r) - (a1 - a) /\
+                         zlen (br_rest r1) <= zlen (br_rest r)
+  | (Err _, a1) => 0 <= a1 - a <= zlen (stream r) + codec_read_chunk
+  | _ => False
+  end.
+Proof.
+  induction fuel as [|fuel IH]; intros n acc r a Hwf Hfuel.
+  - pose proof (zlen_nonneg (stream r)). lia.
+  - cbn [read_bytes_aux]. destruct (n <=? zlen acc) eqn:E.
+    + unfold mret. repeat split; try assumption; lia.
+    + set (want := Z.min (n - zlen acc) codec_read_chunk).
+      pose proof chunk_pos as Hc.
+      assert (Hw : 0 < want <= codec_read_chunk) by (unfold want; lia).
+      unfold mbind at 1. unfold malloc at 1. unfold mbind at 1. unfold mlift at 1.
+      destruct (read_full_spec want r Hwf ltac:(lia)) as [Hok Herr].
+      destruct (Z_le_gt_dec want (zlen (stream r))) as [Hle|Hgt].
+      * destruct (Hok Hle) as (r1 & E1 & Hs1 & Hw1 & Hr1). rewrite E1.
+        assert (Hl1 : zlen (stream r1) = zlen (stream r) - want) by (rewrite Hs1, zlen_zdrop by lia; lia).
+        specialize (IH n (acc ++ ztake want (stream r)) r1 (a + want) Hw1 ltac:(lia)).
+        destruct (read_bytes_aux fuel n (acc ++ ztake want (stream r)) r1 (a + want)) as [[[bs2 r2]|c|c|] a2];
+          try contradiction.
+        -- destruct IH as (Hw2 & Ha2 & Hl2 & Hr2). repeat split; try assumption; lia.
+        -- pose proof (zlen_nonneg (stream r1)). lia.
+      * destruct (Herr ltac:(lia)) as (c & E1). rewrite E1. pose proof (zlen_nonneg (stream r)). lia.
+Qed.
+
+Lemma read_bytes_total n r a : wf r ->
+  match read_bytes n r a with
+  | (Ok (bs, r1), a1) => wf r1 /\ 0 <= a1 - a /\ zlen (stream r1) = zlen (stream r) - (a1 - a) /\
+                         zlen (br_rest r1) <= zlen (br_rest r)
+  | (Err _, a1) => 0 <= a1 - a <= zlen (stream r) + codec_read_chunk
+  | _ => False
+  end.
+Proof.
+  intros Hwf. unfold read_bytes. apply read_bytes_aux_total; [exact Hwf|]. unfold zlen. lia.
+Qed.
+
+Lemma read_varlen_string_total r a : wf r ->
+  match read_varlen_string fixed_flags r a with
+  | (Ok (s, r1), a1) => wf r1 /\ 0 <= a1 - a <= zlen (stream r) - zlen (stream r1) /\
+                        zlen (br_rest r1) <= zlen (br_rest r)
+  | (Err _, a1) => 0 <= a1 - a <= zlen (stream r) + codec_read_chunk
+  | _ => False
+  end.
+Proof.
+  intros Hwf. unfold read_varlen_string. cbn [f_strict_peek f_trust_len fixed_flags andb].
+  pose proof (peek_spec max_varint_len64 r Hwf ltac:(unfold max_varint_len64, bufsize; lia)) as Hp.
+  destruct (peek max_varint_len64 r) as [[pk eof] r1].
+  destruct Hp as (Hs1 & Hw1 & Hb & Hr & _ & _).
+  destruct (uvarint pk) as [v n] eqn:Eu. apply uvarint_n in Eu.
+  pose proof (mdiscard_total n r1 a Hw1 ltac:(lia)) as Hd.
+  unfold mbind at 1.
+  destruct (mdiscard n r1 a) as [[r2|c|c|] a2]; try contradiction.
+  - destruct Hd as (-> & Hn0 & Hw2 & Hs2 & Hr2).
+    assert (Hl2 : zlen (stream r2) <= zlen (stream r)).
+    { rewrite Hs2, Hs1, zlen_zdrop by lia. pose proof (zlen_nonneg (stream r)). lia. }
+    pose proof (read_bytes_total v r2 a Hw2) as Hb2.
+    destruct (read_bytes v r2 a) as [[[bs r3]|c|c|] a3]; try contradiction.
+    + destruct Hb2 as (Hw3 & Ha3 & Hl3 & Hr3). repeat split; try assumption; try lia.
+      rewrite Hr2 in Hr3. lia.
+    + lia.
+  - subst. pose proof (zlen_nonneg (stream r)). pose proof chunk_pos. lia.
+Qed.
+
+Lemma read_segment_total rb r a : wf r ->
+  match read_segment fixed_flags rb r a with
+  | (Ok (g, r1), a1) => wf r1 /\ 0 <= a1 - a <= zlen (stream r) - zlen (stream r1) /\
+                        zlen (stream r1) + 4 <= zlen (stream r) /\ zlen (br_rest r1) <= zlen (br_rest r)
+  | (Err _, a1) => 0 <= a1 - a <= zlen (stream r) + codec_read_chunk + 4
+  | _ => False
+  end.
+Proof.
+  intros Hwf. unfold read_segment.
+  pose proof (read_varlen_string_total r a Hwf) as H1.
+  unfold mbind at 1.
+  destruct (read_varlen_string fixed_flags r a) as [[[typ r1]|c|c|] a1]; try contradiction; [|lia].
+  destruct H1 as (Hw1 & Ha1 & Hr1). cbn beta iota.
+  unfold mbind at 1. unfold malloc at 1. cbn [f_single_read f_trust_len fixed_flags].
+  unfold mbind at 1. unfold mlift at 1.
+  destruct (read_full_spec 4 r1 Hw1 ltac:(lia)) as [Hok Herr].
+  pose proof chunk_pos as Hc. pose proof (zlen_nonneg (stream r1)) as Hz1.
+  destruct (Z_le_gt_dec 4 (zlen (stream r1))) as [Hle|Hgt].
+  2:{ destruct (Herr ltac:(lia)) as (c & E). rewrite E. lia. }
+  destruct (Hok Hle) as (r2 & E2 & Hs2 & Hw2 & Hr2). rewrite E2. cbn beta iota.
+  assert (Hl2 : zlen (stream r2) = zlen (stream r1) - 4) by (rewrite Hs2, zlen_zdrop by lia; lia).
+  (* id *)
+  pose proof (peek_uvarint_facts r2 Hw2) as Hp3.
+  destruct (peek_uvarint r2) as [[id n] r3]. destruct Hp3 as (Hs3 & Hw3 & Hn3 & Hr3).
+  pose proof (mdiscard_total n r3 (a1 + 4) Hw3 Hn3) as Hd4.
+  unfold mbind at 1.
+  destruct (mdiscard n r3 (a1 + 4)) as [[r4|c|c|] a4]; try contradiction; [|subst; lia].
+  destruct Hd4 as (-> & Hn0 & Hw4 & Hs4 & Hr4). apply (f_equal (@zlen Z)) in Hr4.
+  assert (Hl4 : zlen (stream r4) <= zlen (stream r2)).
+  { rewrite Hs4, Hs3, zlen_zdrop by lia. pose proof (zlen_nonneg (stream r2)). lia. }
+  (* deleted length *)
+  pose proof (peek_uvarint_facts r4 Hw4) as Hp5.
+  destruct (peek_uvarint r4) as [[delLen n2] r5]. destruct Hp5 as (Hs5 & Hw5 & Hn5 & Hr5).
+  pose proof (mdiscard_total n2 r5 (a1 + 4) Hw5 Hn5) as Hd6.
+  unfold mbind at 1.
+  destruct (mdiscard n2 r5 (a1 + 4)) as [[r6|c|c|] a6]; try contradiction; [|subst; lia].
+  destruct Hd6 as (-> & Hn20 & Hw6 & Hs6 & Hr6). apply (f_equal (@zlen Z)) in Hr6.
+  assert (Hl6 : zlen (stream r6) <= zlen (stream r4)).
+  { rewrite Hs6, Hs5, zlen_zdrop by lia. pose proof (zlen_nonneg (stream r4)). lia. }
+  destruct (0 <? delLen).
+  - pose proof (read_bytes_total delLen r6 (a1 + 4) Hw6) as Hb7.
+    unfold mbind at 1.
+    destruct (read_bytes delLen r6 (a1 + 4)) as [[[db r7]|c|c|] a7]; try contradiction; [|lia].
+    destruct Hb7 as (Hw7 & Ha7 & Hl7 & Hr7). cbn beta iota.
+    pose proof (zlen_nonneg (stream r7)) as Hz7.
+    destruct (rb db).
+    + unfold mret. repeat split; try assumption; try lia.
+    + unfold mfail. lia.
+  - unfold mret. repeat split; try assumption; try lia.
+Qed.
+
+Lemma read_segments_total rb : forall fuel todo acc r a, wf r -> zlen (stream r) < Z.of_nat fuel ->
+  match read_segments fuel fixed_flags rb todo acc r a with
+  | (Ok (gs, r1), a1) => wf r1 /\ 0 <= a1 - a <= zlen (stream r) - zlen (stream r1) /\
+                         zlen (br_rest r1) <= zlen (br_rest r)
+  | (Err _, a1) => 0 <= a1 - a <= zlen (stream r) + codec_read_chunk + 4
+  | _ => False
+  end.
+Proof.
+  induction fuel as [|fuel IH]; intros todo acc r a Hwf Hfuel.
+  - pose proof (zlen_nonneg (stream r)). lia.
+  - cbn [read_segments]. destruct (todo <=? 0).
+    + unfold mret. repeat split; try assumption; lia.
+    + pose proof (read_segment_total rb r a Hwf) as H1.
+      unfold mbind at 1.
+      destruct (read_segment fixed_flags rb r a) as [[[g r1]|c|c|] a1]; try contradiction; [|exact H1].
+      destruct H1 as (Hw1 & Ha1 & Hl1 & Hr1). cbn beta iota.
+      specialize (IH (todo - 1) (g :: acc) r1 a1 Hw1 ltac:(lia)).
+      destruct (read_segments fuel fixed_flags rb (todo - 1) (g :: acc) r1 a1) as [[[gs r2]|c|c|] a2]; try contradiction.
+      * destruct IH as (Hw2 & Ha2 & Hr2). repeat split; try assumption; lia.
+      * pose proof (zlen_nonneg (stream r1)). lia.
+Qed.
+
+Lemma decode_reader_total rb r a : wf r ->
+  match decode_reader fixed_flags rb r a with
+  | (Ok (s, r1), a1) => wf r1 /\ 0 <= a1 - a <= bufsize + zlen (stream r) /\
+                        zlen (br_rest r1) <= zlen (br_rest r)
+  | (Err _, a1) => 0 <= a1 - a <= bufsize + zlen (stream r) + codec_read_chunk + 4
+  | _ => False
+  end.
+Proof.
+  intros Hwf. unfold decode_reader. unfold mbind at 1. unfold malloc at 1.
+  pose proof (zlen_nonneg (stream r)) as Hz. pose proof chunk_pos as Hc.
+  assert (Hbs : 0 < bufsize) by reflexivity.
+  pose proof (peek_uvarint_facts r Hwf) as Hp1.
+  destruct (peek_uvarint r) as [[ver n] r1]. destruct Hp1 as (Hs1 & Hw1 & Hn1 & Hr1).
+  pose proof (mdiscard_total n r1 (a + bufsize) Hw1 Hn1) as Hd2.
+  unfold mbind at 1.
+  destruct (mdiscard n r1 (a + bufsize)) as [[r2|c|c|] a2]; try contradiction; [|subst; lia].
+  destruct Hd2 as (-> & Hn0 & Hw2 & Hs2 & Hr2). apply (f_equal (@zlen Z)) in Hr2.
+  assert (Hl2 : zlen (stream r2) <= zlen (stream r)).
+  { rewrite Hs2, Hs1, zlen_zdrop by lia. lia. }
+  destruct (ver =? snapshot_format_version1); [|unfold mfail; lia].
+  unfold read_v1. unfold mbind at 1.
+  pose proof (peek_uvarint_facts r2 Hw2) as Hp3.
+  destruct (peek_uvarint r2) as [[num n3] r3]. destruct Hp3 as (Hs3 & Hw3 & Hn3 & Hr3).
+  pose proof (mdiscard_total n3 r3 (a + bufsize) Hw3 Hn3) as Hd4.
+  unfold mbind at 1.
+  destruct (mdiscard n3 r3 (a + bufsize)) as [[r4|c|c|] a4]; try contradiction; [|subst; lia].
+  destruct Hd4 as (-> & Hn30 & Hw4 & Hs4 & Hr4). apply (f_equal (@zlen Z)) in Hr4.
+  assert (Hl4 : zlen (stream r4) <= zlen (stream r2)).
+  { rewrite Hs4, Hs3, zlen_zdrop by lia. pose proof (zlen_nonneg (stream r2)). lia. }
+  pose proof (read_segments_total rb (S (length (stream r4))) (wrap64 num) [] r4 (a + bufsize) Hw4
+                ltac:(unfold zlen; lia)) as H5.
+  destruct (read_segments (S (length (stream r4))) fixed_flags rb (wrap64 num) [] r4 (a + bufsize))
+    as [[[gs r5]|c|c|] a5]; try contradiction.
+  - destruct H5 as (Hw5 & Ha5 & Hr5). cbn beta iota. unfold mret.
+    pose proof (zlen_nonneg (stream r5)). repeat split; try assumption; lia.
+  - lia.
+Qed.
+
+(* ReadFrom is total on every byte string: a value or an error, never a panic *)
+Theorem decode_total_all rb b : (exists s, decode rb b = Ok s) \/ (exists c, decode rb b = Err c).
+Proof.
+  unfold decode, decode_with. rewrite gen_flags_fixed.
+  pose proof (decode_reader_total rb (br_init b) 0 (wf_init b)) as H.
+  destruct (decode_reader fixed_flags rb (br_init b) 0) as [[[s r]|c|c|] a]; try contradiction; cbn; eauto.
+Qed.
+
+Lemma payload_len b : 0 <= zlen (payload_of b) <= zlen b.
+Proof.
+  unfold payload_of. pose proof (zlen_nonneg b).
+  destruct (Z_lt_ge_dec (zlen b - crc_width) 0).
+  - rewrite ztake_nonpos by lia. change (zlen ([] : list Z)) with 0. lia.
+  - rewrite zlen_ztake by lia. lia.
+Qed.
+
+(* loadSnapshot is total, and what it asks make() for is bounded by the size of the file plus two
+   buffers: the 4096 bytes of bufio.NewReader, at most one 4096-byte chunk that a lying length
+   field can obtain, the 4 version bytes and the 4 CRC bytes *)
+Theorem load_total_alloc_all rb b :
+  ((exists s, load rb b = Ok s) \/ (exists c, load rb b = Err c)) /\
+  0 <= load_alloc rb b <= zlen b + 2 * bufsize + 8.
+Proof.
+  unfold load, load_alloc, load_with. rewrite gen_flags_fixed.
+  pose proof (payload_len b) as Hpl.
+  pose proof (decode_reader_total rb (br_init (payload_of b)) 0 (wf_init _)) as H.
+  rewrite stream_init in H.
+  assert (Hchunk : codec_read_chunk = bufsize) by reflexivity.
+  assert (Hcw : crc_width = 4) by reflexivity.
+  assert (Hbs : bufsize = 4096) by reflexivity.
+  destruct (decode_reader fixed_flags rb (br_init (payload_of b)) 0) as [[[s r]|c|c|] a] eqn:E; try contradiction.
+  - destruct (zlen b <? crc_width) eqn:El.
+    + exfalso.
+      assert (Hp : payload_of b = []) by (unfold payload_of; apply ztake_nonpos; lia).
+      assert (E0 : decode_reader fixed_flags rb (br_init []) 0 = (Err err_version, 4096)) by (vm_compute; reflexivity).
+      rewrite Hp, E0 in E. discriminate.
+    + destruct (zlist_eqb _ (trailer_of b)); cbn [fst snd]; (split; [eauto|lia]).
+  - cbn [fst snd]. split; [eauto|lia].
+Qed.
+
+
+(* ================================================================ single-bit flips of small files *)
+
+(* after the first Peek the whole of a payload of at most one buffer has been pulled, so the
+   checksum covers all of it *)
+Lemma fill_init_cons x p' :
+  fill (br_init (x :: p')) =
+  ({| br_buf := ztake bufsize (x :: p'); br_rest := zdrop bufsize (x :: p') |}, false).
+Proof.
+  unfold fill, br_init. cbn [br_rest br_buf]. unfold buffered. cbn [br_buf].
+  change (zlen ([] : list Z)) with 0. rewrite Z.sub_0_r. reflexivity.
+Qed.
+
+Lemma peek_after_fill p n : 0 < n <= bufsize ->
+  peek n (br_init p) = peek n (fst (fill (br_init p))).
+Proof.
+  intros Hn. assert (Hbs : bufsize = 4096) by reflexivity.
+  destruct p as [|x p'].
+  - reflexivity.
+  - rewrite fill_init_cons. cbn [fst].
+    unfold peek at 1.
+    change (buffered (br_init (x :: p'))) with 0. replace (n <=? 0) with false by lia.
+    rewrite fill_init_cons.
+    set (r1 := {| br_buf := ztake bufsize (x :: p'); br_rest := zdrop bufsize (x :: p') |}).
+    assert (Hb1 : buffered r1 = Z.min bufsize (zlen (x :: p'))) by (unfold buffered, r1; cbn [br_buf]; apply zlen_ztake; lia).
+    unfold peek. destruct (n <=? buffered r1) eqn:E; [reflexivity|].
+    assert (Hrest : br_rest r1 = []) by (unfold r1; cbn [br_rest]; apply zdrop_all; lia).
+    unfold fill. rewrite Hrest. rewrite E. reflexivity.
+Qed.
+
+Lemma decode_reader_after_fill fl rb p a :
+  decode_reader fl rb (br_init p) a = decode_reader fl rb (fst (fill (br_init p))) a.
+Proof.
+  unfold decode_reader, peek_uvarint.
+  rewrite (peek_after_fill p max_varint_len64) by (unfold max_varint_len64, bufsize; lia). reflexivity.
+Qed.
+
+Lemma pulled_all rb p s r a : zlen p <= bufsize ->
+  decode_reader fixed_flags rb (br_init p) 0 = (Ok (s, r), a) -> br_rest r = [].
+Proof.
+  intros Hp E. rewrite decode_reader_after_fill in E.
+  set (r1 := fst (fill (br_init p))) in *.
+  assert (Hw1 : wf r1 /\ br_rest r1 = []).
+  { pose proof (fill_spec (br_init p) (wf_init p)) as Hf. unfold r1.
+    destruct (fill (br_init p)) as [r' eof] eqn:Ef. cbn [fst].
+    destruct Hf as (Hs & Hw & _ & Heof & Hne & _). split; [exact Hw|].
+    destruct eof.
+    - destruct (Heof eq_refl) as [Hr ->]. exact Hr.
+    - destruct (Hne eq_refl) as [Hb|Hb].
+      + apply zlen_nil_iff. rewrite stream_init in *. unfold stream in Hs.
+        assert (zlen (br_buf r' ++ br_rest r') = zlen p) by (rewrite Hs; reflexivity).
+        rewrite zlen_app in H. unfold buffered in Hb. pose proof (zlen_nonneg (br_rest r')). lia.
+      + change (buffered (br_init p)) with 0 in Hb. unfold bufsize in Hb. lia. }
+  destruct Hw1 as [Hw1 Hr1].
+  pose proof (decode_reader_total rb r1 0 Hw1) as H. rewrite E in H.
+  destruct H as (_ & _ & Hr). rewrite Hr1 in Hr. change (zlen ([] : list Z)) with 0 in Hr.
+  apply zlen_nil_iff. pose proof (zlen_nonneg (br_rest r)). lia.
+Qed.
+
+(* flip_bit and list surgery *)
+Lemma flip_bit_length : forall m i j, length (flip_bit m i j) = length m.
+Proof. induction m as [|b t IH]; intros [|i] j; simpl; auto. Qed.
+
+Lemma flip_bit_app_l : forall a b i j, (i < length a)%nat -> flip_bit (a ++ b) i j = flip_bit a i j ++ b.
+Proof.
+  induction a as [|x a IH]; intros b i j Hi; simpl in Hi; [lia|].
+  destruct i; simpl; [reflexivity|]. rewrite IH by lia. reflexivity.
+Qed.
+
+Lemma flip_bit_app_r : forall a b i j, (length a <= i)%nat -> flip_bit (a ++ b) i j = a ++ flip_bit b (i - length a) j.
+Proof.
+  induction a as [|x a IH]; intros b i j Hi; simpl.
+  - rewrite Nat.sub_0_r. reflexivity.
+  - destruct i; simpl in Hi; [lia|]. simpl. rewrite IH by lia. reflexivity.
+Qed.
+
+Lemma flip_bit_neq : forall m i j, (i < length m)%nat -> 0 <= j -> flip_bit m i j <> m.
+Proof.
+  induction m as [|b t IH]; intros i j Hi Hj; simpl in Hi; [lia|].
+  destruct i; simpl.
+  - intros H. inversion H as [H1]. rewrite <- (Z.lxor_0_r b) in H1 at 2.
+    apply lxor_cancel_l in H1. pose proof (Z.pow_pos_nonneg 2 j ltac:(lia) Hj). lia.
+  - intros H. inversion H as [H1]. apply (IH i j ltac:(lia) Hj). exact H1.
+Qed.
+
+Lemma byte_flip_range b j : 0 <= b < 256 -> 0 <= j < 8 -> 0 <= Z.lxor b (2 ^ j) < 256.
+Proof.
+  intros Hb Hj.
+  assert (Hp : 0 <= 2 ^ j < 256).
+  { assert (Hc : j = 0 \/ j = 1 \/ j = 2 \/ j = 3 \/ j = 4 \/ j = 5 \/ j = 6 \/ j = 7) by lia.
+    destruct Hc as [->|[->|[->|[->|[->|[->|[->| ->]]]]]]]; simpl; lia. }
+  split; [apply Z.lxor_nonneg; lia|].
+  destruct (Z.eq_dec (Z.lxor b (2 ^ j)) 0) as [->|Hne]; [lia|].
+  assert (Hpos : 0 < Z.lxor b (2 ^ j)) by (assert (0 <= Z.lxor b (2 ^ j)) by (apply Z.lxor_nonneg; lia); lia).
+  apply Z.log2_lt_pow2 with (b := 8) in Hpos as Hiff. change (2 ^ 8) with 256 in Hiff. apply Hiff.
+  pose proof (Z.log2_lxor b (2 ^ j) ltac:(lia) ltac:(lia)) as Hl.
+  assert (Z.log2 b < 8).
+  { destruct (Z.eq_dec b 0) as [->|]; [simpl; lia|]. apply Z.log2_lt_pow2; [lia|]. change (2 ^ 8) with 256. lia. }
+  assert (Z.log2 (2 ^ j) < 8) by (rewrite Z.log2_pow2 by lia; lia).
+  lia.
+Qed.
+
+Lemma bytes_forall l : bytes_ok l = true -> Forall (fun b => 0 <= b < 256) l.
+Proof.
+  unfold bytes_ok. intros H. rewrite forallb_forall in H. apply Forall_forall. intros x Hx.
+  specialize (H x Hx). unfold is_byte in H. lia.
+Qed.
+
+Lemma flip_bit_forall : forall m i j, Forall (fun b => 0 <= b < 256) m -> 0 <= j < 8 ->
+  Forall (fun b => 0 <= b < 256) (flip_bit m i j).
+Proof.
+  induction m as [|b t IH]; intros i j Hm Hj; simpl; [destruct i; constructor|].
+  inversion Hm; subst. destruct i; constructor; auto. apply byte_flip_range; assumption.
+Qed.
+
+Lemma put_be32_inj a b : in32 a -> in32 b -> put_be32 a = put_be32 b -> a = b.
+Proof.
+  unfold in32, two32. intros Ha Hb H. rewrite <- (be32_put a), <- (be32_put b) by lia. rewrite H. reflexivity.
+Qed.
+
+Lemma split_file b : crc_width <= zlen b ->
+  b = payload_of b ++ trailer_of b /\ zlen (trailer_of b) = 4 /\ zlen (payload_of b) = zlen b - 4.
+Proof.
+  intros H. rewrite crc_width_4 in H. unfold payload_of, trailer_of. rewrite crc_width_4.
+  split; [symmetry; apply ztake_zdrop|]. rewrite zlen_zdrop, zlen_ztake by lia. lia.
+Qed.
+
+Lemma payload_trailer_app p t : zlen t = 4 -> payload_of (p ++ t) = p /\ trailer_of (p ++ t) = t.
+Proof.
+  intros Ht. unfold payload_of, trailer_of. rewrite crc_width_4, zlen_app, Ht.
+  replace (zlen p + 4 - 4) with (zlen p) by lia. split; [apply ztake_app_exact|apply zdrop_app_exact].
+Qed.
+
+(* Every single-bit flip of a file of at most one buffer (+ trailer) that loads is rejected:
+   in the trailer directly, in the payload because the CRC of the whole payload changes. *)
+Theorem bitflip_rejected_small_all rb b i j :
+  bytes_ok b = true -> zlen b <= bufsize + 4 -> (i < length b)%nat -> 0 <= j < 8 ->
+  (exists s, load rb b = Ok s) -> exists c, load rb (flip_bit b i j) = Err c.
+Proof.
+  intros Hbytes Hsmall Hi Hj [s Hload].
+  destruct (load_total_alloc_all rb (flip_bit b i j)) as [[[s' Hload']|Herr] _]; [exfalso|exact Herr].
+  destruct (accept_sound_all rb b s Hload) as (Hlen & r & a & E & Hcrc).
+  destruct (accept_sound_all rb _ s' Hload') as (Hlen' & r' & a' & E' & Hcrc').
+  rewrite gen_flags_fixed in E, E'.
+  destruct (split_file b Hlen) as (Hb & Ht4 & Hp4).
+  set (p := payload_of b) in *. set (t := trailer_of b) in *.
+  assert (Hpl : zlen p <= bufsize) by lia.
+  assert (Hall : Forall (fun x => 0 <= x < 256) b) by (apply bytes_forall; exact Hbytes).
+  assert (Hpall : Forall (fun x => 0 <= x < 256) p).
+  { rewrite Hb in Hall. apply Forall_app in Hall. tauto. }
+  rewrite (pulled_all rb p s r a Hpl E) in Hcrc. change (zlen ([] : list Z)) with 0 in Hcrc.
+  rewrite Z.sub_0_r, (ztake_all (zlen p) p) in Hcrc by lia.
+  destruct (Nat.lt_ge_cases i (length p)) as [Hin|Hout].
+  - (* flip inside the payload *)
+    assert (Hb' : flip_bit b i j = flip_bit p i j ++ t) by (rewrite Hb at 1; apply flip_bit_app_l; exact Hin).
+    assert (Ht4' : zlen t = 4) by exact Ht4.
+    rewrite Hb' in E', Hcrc'.
+    destruct (payload_trailer_app (flip_bit p i j) t Ht4') as [Hp' Ht']. rewrite Hp' in E', Hcrc'. rewrite Ht' in Hcrc'.
+    assert (Hpl' : zlen (flip_bit p i j) <= bufsize) by (unfold zlen in *; rewrite flip_bit_length; exact Hpl).
+    rewrite (pulled_all rb _ s' r' a' Hpl' E') in Hcrc'. change (zlen ([] : list Z)) with 0 in Hcrc'.
+    rewrite Z.sub_0_r, ztake_all in Hcrc' by lia.
+    rewrite <- Hcrc in Hcrc'. apply put_be32_inj in Hcrc'.
+    + apply (crc32_single_bit p i j Hin Hj). exact Hcrc'.
+    + apply crc32_range. apply flip_bit_forall; assumption.
+    + apply crc32_range. exact Hpall.
+  - (* flip inside the trailer *)
+    assert (Hb' : flip_bit b i j = p ++ flip_bit t (i - length p) j) by (rewrite Hb at 1; apply flip_bit_app_r; exact Hout).
+    assert (Ht4' : zlen (flip_bit t (i - length p) j) = 4) by (unfold zlen in *; rewrite flip_bit_length; exact Ht4).
+    rewrite Hb' in E', Hcrc'.
+    destruct (payload_trailer_app p _ Ht4') as [Hp' Ht']. rewrite Hp' in E', Hcrc'. rewrite Ht' in Hcrc'.
+    rewrite (pulled_all rb p s' r' a' Hpl E') in Hcrc'. change (zlen ([] : list Z)) with 0 in Hcrc'.
+    rewrite Z.sub_0_r, (ztake_all (zlen p) p) in Hcrc' by lia.
+    rewrite Hcrc in Hcrc'. symmetry in Hcrc'. revert Hcrc'. apply flip_bit_neq; [|lia].
+    assert (length b = (length p + length t)%nat) by (rewrite Hb at 1; apply app_length). lia.
+Qed.
+
+(* ================================================================ round trip with abstract bitmaps *)
+
+(* Roaring as an abstract codec: any type B of bitmaps with a writer, a reader and an emptiness
+   test such that reading back what was written gives the same bitmap. *)
+Section AbstractBitmaps.
+  Variable B : Type.
+  Variable rb_write : B -> list Z.
+  Variable rb_read : list Z -> option B.
+  Variable rb_empty : B -> bool.
+  Hypothesis rb_roundtrip : forall b, rb_read (rb_write b) = Some b.
+
+  (* the library call as the decoder sees it *)
+  Definition rb_of (bytes : list Z) : option (list Z) :=
+    match rb_read bytes with
+    | None => None
+    | Some b => if rb_empty b then Some [] else Some (rb_write b)
+    end.
+
+  Record aseg := { as_id : Z; as_type : list Z; as_ver : Z; as_del : option B }.
+
+  Definition conc (g : aseg) : seg :=
+    {| sg_id := as_id g; sg_type := as_type g; sg_ver := as_ver g;
+       sg_del := match as_del g with None => [] | Some b => rb_write b end |}.
+
+  (* what the index produces: deleted is nil or a non-empty bitmap (introducer.go:155-158) *)
+  Definition aseg_ok (g : aseg) : Prop :=
+    0 <= as_id g < two64 /\ 0 <= as_ver g < 4294967296 /\ zlen (as_type g) < two64 /\
+    match as_del g with None => True | Some b => rb_empty b = false /\ zlen (rb_write b) < two64 end.
+
+  Lemma conc_ok g : aseg_ok g -> seg_wf (conc g) /\ del_canonical rb_of (conc g).
+  Proof.
+    intros (Hid & Hver & Hty & Hd). unfold seg_wf, del_canonical, conc; cbn.
+    destruct (as_del g) as [b|].
+    - destruct Hd as [He Hl]. repeat split; try lia. right. unfold rb_of. rewrite rb_roundtrip, He. reflexivity.
+    - repeat split; try lia. left. reflexivity.
+  Qed.
+
+  Theorem roundtrip_abstract (gs : list aseg) :
+    Forall aseg_ok gs -> zlen gs < two63 ->
+    load rb_of (encode {| sn_segs := map conc gs |}) = Ok {| sn_segs := map conc gs |}.
+  Proof.
+    intros Hok Hlen. apply roundtrip_all.
+    - split; cbn.
+      + apply Forall_map. eapply Forall_impl; [|exact Hok]. intros g Hg. apply conc_ok. exact Hg.
+      + unfold zlen in *. rewrite map_length. exact Hlen.
+    - cbn. apply Forall_map. eapply Forall_impl; [|exact Hok]. intros g Hg. apply conc_ok. exact Hg.
+  Qed.
+End AbstractBitmaps.
+
+(* satisfiable on a non-trivial instance: two segments, 2^64-1 as an id, a 5000-byte bitmap that
+   crosses the read buffer *)
+Example roundtrip_instance :
+  let big := repeat 7 5000 in
+  let s := {| sn_segs := [ {| sg_id := 18446744073709551615; sg_type := [105; 99; 101]; sg_ver := 1; sg_del := big |};
+                           {| sg_id := 0; sg_type := [97; 98]; sg_ver := 4294967295; sg_del := [] |} ] |} in
+  load (fun b => Some b) (encode s) = Ok s.
+Proof. vm_compute. reflexivity. Qed.
